@@ -513,6 +513,9 @@ func (in *Interp) raise(th *Thread, v Value) {
 	if in.guard != nil {
 		panic(ifconvAbort{})
 	}
+	if in.inInit {
+		panic(unsupported{"panic during package initialisation: " + in.describe(v)})
+	}
 	th.panicking = true
 	th.panicV = v
 }
